@@ -71,11 +71,11 @@ type Handler struct {
 // unaltered.
 func (h *Handler) Listen(s *xmpp.Session) *Listener {
 	addrStr := s.LocalAddr().String()
+	h.lM.Lock()
+	defer h.lM.Unlock()
 	if h.l == nil {
 		h.l = make(map[string]*Listener)
 	}
-	h.lM.Lock()
-	defer h.lM.Unlock()
 	l, ok := h.l[addrStr]
 	if ok {
 		return l
@@ -117,7 +117,9 @@ func (h *Handler) HandleIQ(iq stanza.IQ, t xmlstream.TokenReadEncoder, start *xm
 	case "close":
 		_, sid := attr.Get(start.Attr, "sid")
 
+		h.mu.Lock()
 		conn, ok := h.streams[sid]
+		h.mu.Unlock()
 		if !ok {
 			_, err := xmlstream.Copy(t, iq.Error(stanza.Error{
 				Type:      stanza.Cancel,
@@ -196,7 +198,9 @@ type errorResponder interface {
 }
 
 func handlePayload(h *Handler, errResp errorResponder, p dataPayload, e xmlstream.Encoder) error {
+	h.mu.Lock()
 	conn, ok := h.streams[p.SID]
+	h.mu.Unlock()
 	if !ok {
 		_, err := xmlstream.Copy(e, errResp.Error(stanza.Error{
 			Type:      stanza.Cancel,
